@@ -33,14 +33,14 @@ inline GenCfg profile_cfg(int profile, Rng& rng, bool faults) {
   w[OP_NEW_MOCK] = 4; w[OP_DESTROY_MOCK] = 2; w[OP_MOVE_MOCK] = 2; w[OP_NEW_SEQ] = 2; w[OP_MOVE_SEQ] = 1; w[OP_DESTROY_SEQ] = 1;
   w[OP_EXPECT] = 22; w[OP_RELEASE] = 6; w[OP_ABANDON] = 1; w[OP_CALL] = 40; w[OP_Q_COMPLETED] = 1;
   w[OP_NEW_WATCHED] = 1; w[OP_DESTROY_WATCHED] = 1; w[OP_COPY_WATCHED] = 0; w[OP_MOVECONS_WATCHED] = 0; w[OP_ASSIGN_WATCHED] = 0;
-  w[OP_REQ_DESTRUCTION] = 1; w[OP_RELEASE_MON] = 1; w[OP_PUSH_TRACER] = 1; w[OP_POP_TRACER] = 1; w[OP_SET_REPORTER] = 1; w[OP_MUTATE] = 2;
+  w[OP_REQ_DESTRUCTION] = 1; w[OP_RELEASE_MON] = 1; w[OP_PUSH_TRACER] = 1; w[OP_POP_TRACER] = 1; w[OP_SET_REPORTER] = 1; w[OP_MUTATE] = 2; w[OP_WIDE] = 1;
   c.nested_pct = 14; c.fault_pct = 10;
   switch (profile) {
     case PF_BOUNDS: w[OP_CALL] = 60; w[OP_EXPECT] = 20; c.inverted_pct = 6; break;
     case PF_LIFETIME: w[OP_RELEASE] = 14; w[OP_DESTROY_MOCK] = 8; w[OP_MOVE_MOCK] = 6; w[OP_ABANDON] = 3; w[OP_NEW_MOCK] = 8; break;
     case PF_SEQ: w[OP_NEW_SEQ] = 4; w[OP_DESTROY_SEQ] = 2; w[OP_Q_COMPLETED] = 3; w[OP_REQ_DESTRUCTION] = 4; w[OP_NEW_WATCHED] = 3; w[OP_DESTROY_WATCHED] = 4; w[OP_RELEASE] = 8; break;
     case PF_FORBID: w[OP_RELEASE] = 10; break;
-    case PF_CLAUSES: c.nested_pct = 35; c.fault_pct = 25; w[OP_MUTATE] = 10; break;
+    case PF_CLAUSES: c.nested_pct = 35; c.fault_pct = 25; w[OP_MUTATE] = 10; w[OP_WIDE] = 8; break;
     case PF_WATCHED: w[OP_NEW_WATCHED] = 12; w[OP_DESTROY_WATCHED] = 12; w[OP_COPY_WATCHED] = 4; w[OP_MOVECONS_WATCHED] = 4; w[OP_ASSIGN_WATCHED] = 5;
       w[OP_REQ_DESTRUCTION] = 16; w[OP_RELEASE_MON] = 10; w[OP_CALL] = 10; w[OP_EXPECT] = 8; w[OP_NEW_SEQ] = 3; w[OP_ABANDON] = 2; break;
     case PF_DESTROY: w[OP_DESTROY_MOCK] = 8; w[OP_MOVE_MOCK] = 8; w[OP_DESTROY_SEQ] = 6; w[OP_MOVE_SEQ] = 4; w[OP_NEW_SEQ] = 6; w[OP_RELEASE] = 10; w[OP_ABANDON] = 3;
@@ -220,6 +220,7 @@ class Generator {
       case OP_SET_REPORTER: return mk(k, rng_.below(2));
       case OP_NEW_WATCHED: return mk(k, 0, rng_.below(100));
       case OP_ABANDON: return mk(k, rng_.below(4));
+      case OP_WIDE: return mk(k, rng_.below(64), rng_.below(50));
       default: return mk(k, rng_.below(12));
     }
   }
